@@ -6,6 +6,8 @@ import (
 	"go/ast"
 	"go/printer"
 	"go/token"
+	"os"
+	"path/filepath"
 	"strings"
 )
 
@@ -703,6 +705,44 @@ func init() {
 			}
 			fmt.Fprintf(&sb, "/-- does finishCompactionOutputFile itself release the pending-output mark of the table it finished? -/\n")
 			fmt.Fprintf(&sb, "def finishOutputReleasesPending : Bool := %v\n", rel)
+			// every place of package kv that touches the pending-output marks: "<file>:<func>:<call>"
+			ents, err := os.ReadDir(filepath.Join(repo, "kv"))
+			if err != nil {
+				return "", err
+			}
+			var marks []string
+			for _, e := range ents {
+				name := e.Name()
+				if e.IsDir() || !strings.HasSuffix(name, ".go") || strings.HasSuffix(name, "_test.go") ||
+					strings.HasSuffix(name, "_mock.go") || strings.HasPrefix(name, "zz_verif") {
+					continue
+				}
+				f, err := parse("kv/" + name)
+				if err != nil {
+					return "", err
+				}
+				for _, d := range f.Decls {
+					fd, ok := d.(*ast.FuncDecl)
+					if !ok || fd.Body == nil {
+						continue
+					}
+					ast.Inspect(fd.Body, func(n ast.Node) bool {
+						c, ok := n.(*ast.CallExpr)
+						if !ok {
+							return true
+						}
+						nm := exprName(c.Fun)
+						switch {
+						case strings.HasSuffix(nm, ".removePendingOutput"), strings.HasSuffix(nm, ".addPendingOutput"):
+							marks = append(marks, name+":"+fd.Name.Name+":"+nm[strings.LastIndex(nm, ".")+1:])
+						case strings.HasPrefix(nm, "pendingOutputs."):
+							marks = append(marks, name+":"+fd.Name.Name+":"+nm)
+						}
+						return true
+					})
+				}
+			}
+			def("pendingMarkSites", marks)
 			fd, err = need(cj, "compactJob", "openCompactionOutputFile")
 			if err != nil {
 				return "", err
